@@ -11,7 +11,8 @@ P = "Matid.Props.C01."
 THEOREMS = [P + t for t in ("localize_disjoint", "localize_only_removes", "merge_species_invariant", "merge_terminates", "merge_keeps_atoms_in_range",
                             "clean_is_largest_component", "driver_terminates", "driver_indices_in_range", "pipeline_order_ok",
                             "entry_rules_ok", "sbc_keeps_no_state", "pipeline_wellformed")] + \
-    ["Matid.Props.Proto.accepted_periodicity"]
+    ["Matid.Props.Proto.accepted_periodicity"] + ["Matid.Props.SbcEntry." + t for t in ("fixup_inside", "scale_ge_one", "displacement_scaled")] + \
+    ["Matid.Props.Adaptive." + t for t in ("measured_plus", "measured_minus", "adaptive_close")]
 TRUSTED = ["Lean 4 kernel", "axioms: propext, Classical.choice, Quot.sound at most (audited per run)",
            "hand-written model MatidModel/SBC.lean tied by (a) direct drive of _merge_clusters/_localize_clusters/_clean_clusters with synthetic clusters and (b) recorded finder histories of real get_clusters runs",
            "the periodic finder is a parameter of the model (its outputs are arbitrary data in the theorems); DBSCAN contract D1 for the components",
@@ -115,7 +116,26 @@ def direct_drive(ctx, ncase):
     return mism
 
 
-def recorded_runs(ctx, nrun):
+def entry_family(rng, k):
+    """directed family for the entry of get_clusters: crystalline slabs / crystallites with a non-periodic axis, translated rigidly
+    along it so that atoms lie below, above or across the box, optionally with a molecule that stays inside the box"""
+    from ase import Atoms
+    from ase.build import fcc100, bcc100, molecule
+    s = [fcc100("Cu", (3, 3, 3), a=3.61, vacuum=6.0), bcc100("Fe", (3, 3, 4), a=2.87, vacuum=5.0), fcc100("Al", (4, 4, 3), a=4.05, vacuum=8.0)][k % 3]
+    pbc = [(True, True, False), (False, False, False), (True, False, False), (False, True, False)][(k // 3) % 4]
+    s.set_pbc(pbc)
+    shift = [-20.0, -8.0, -3.0, 3.0, 8.0, 20.0][(k // 12) % 6] + float(rng.uniform(-0.5, 0.5))
+    s.translate([0, 0, shift])
+    if k % 2:
+        m = molecule("CO")
+        m.translate(np.array(s.get_cell()).sum(axis=0) / 2)
+        s += m
+    if rng.random() < 0.5:
+        s = s[rng.permutation(len(s))]
+    return s, "entry-shift(%+.0f)" % shift
+
+
+def recorded_runs(ctx, nrun, directed=False):
     """real get_clusters runs with the finder recorded: the recorded history replayed through the Lean pipeline must
     give the returned clusters; the invariants of the property are checked on the real output"""
     import matid.geometry as G
@@ -123,13 +143,14 @@ def recorded_runs(ctx, nrun):
     import crystals
     rng = np.random.default_rng(ctx.seed + 101)
     lines, runs, bad = [], [], []
-    proto_records = []
+    proto_records, entry_lines, entry_real = [], [], []
+    adaptive_records = []
     shared = SBC()      # ONE object for all runs: a result must not depend on what the object did before
     prev_case = prev_case_next = None
     for k in range(nrun):
         prev_case = prev_case_next
-        a, kind = SC.c01_family(rng, k, max_atoms=ctx.n(70, 160))
-        params = SC.sbc_params(rng, k, kind)
+        a, kind = entry_family(rng, k) if directed else SC.c01_family(rng, k, max_atoms=ctx.n(70, 160))
+        params = {} if directed else SC.sbc_params(rng, k, kind)
         seed = int(rng.integers(0, 50))
         snap = SC.snapshot(a)
         ctx.count("run_" + kind)
@@ -140,6 +161,23 @@ def recorded_runs(ctx, nrun):
             with SC.FinderRecorder() as rec, SC.ProtoRecorder() as prec:
                 clusters = shared.get_clusters(a, seed=seed, **params)
             proto_records.extend(prec.records)
+            if len(adaptive_records) < 600:
+                adaptive_records.extend(prec.adaptive[:60])
+            # entry fix-up: the structure the finder was given vs the model, per non-periodic axis (non-singular input cells)
+            cell0 = np.array(a.get_cell())
+            if rec.system is not None and abs(np.linalg.det(cell0)) > 1e-6 and not a.get_pbc().all():
+                from fractions import Fraction as Fr
+                f0 = np.linalg.solve(cell0.T, a.get_positions().T).T
+                f1 = np.linalg.solve(np.array(rec.system.get_cell()).T, rec.system.get_positions().T).T
+                nonper = [i for i in range(3) if not a.get_pbc()[i]]
+                anys = any(f0[:, i].max() > 1 or f0[:, i].min() < 0 for i in nonper)
+                # decisions within 1e-9 of the boundary are rounding questions, not logic
+                if not any(min(abs(f0[:, i].max() - 1), abs(f0[:, i].min())) < 1e-9 for i in nonper):
+                    for i in nonper:
+                        pick = [int(j) for j in rng.choice(len(a), min(4, len(a)), replace=False)]
+                        entry_lines.append("sbcentry %d %s %s %s" % (int(anys), fs(f0[:, i].min()), fs(f0[:, i].max()), ",".join(fs(f0[j, i]) for j in pick)))
+                        s_real = np.linalg.norm(np.array(rec.system.get_cell())[i]) / np.linalg.norm(cell0[i])
+                        entry_real.append((s_real, [float(f1[j, i]) for j in pick], kind))
         except ValueError as e:
             if not zero_pbc:
                 bad.append({"case": case, "complaints": ["ValueError for a valid cell: %s" % e]})
@@ -198,6 +236,32 @@ def recorded_runs(ctx, nrun):
             ctx.count("proto_" + want.split()[0])
             if o != want:
                 mism.append({"what": "_find_proto_cell acceptance", "op": pl, "model": o, "real": want})
+    if adaptive_records:
+        alines = [SC.adaptive_line(r) for r in adaptive_records]
+        from fractions import Fraction as Fr
+        for r, o, al in zip(adaptive_records, driver(alines), alines):
+            ctx.case(("adaptcell", al), nontrivial=r["add"] is not None or r["sub"] is not None)
+            ctx.count("adaptive_" + ("plus" if r["add"] is not None else "minus" if r["sub"] is not None else "span"))
+            try:
+                v = [float(Fr(x)) for x in o.split(",")]
+                ok = np.allclose(v, r["real"], atol=1e-9)
+            except Exception:  # noqa
+                ok = False
+            if not ok:
+                mism.append({"what": "adaptive cell vector of _find_proto_cell_3d", "op": al[:400], "model": o[:120], "real": [float(x) for x in r["real"]]})
+    if entry_lines:
+        for o, (s_real, f_real, kind_), el in zip(driver(entry_lines), entry_real, entry_lines):
+            ctx.case(("sbcentry", el), nontrivial=True)
+            ctx.count("entry_axes")
+            try:
+                sm, fm = o.split(" ")
+                from fractions import Fraction as Fr
+                ok = abs(float(Fr(sm)) - s_real) < 1e-8 * max(1, s_real) and all(abs(float(Fr(x)) - y) < 1e-8 for x, y in zip(fm.split(","), f_real))
+            except Exception:  # noqa
+                ok = False
+            if not ok:
+                mism.append({"what": "entry fix-up of get_clusters (cell scale / new fractional coordinates along a non-periodic axis)", "op": el, "model": o[:200],
+                             "real": "%r %r" % (s_real, f_real), "kind": kind_})
     if lines:
         out = driver(lines)
         for (case, clusters), o, line in zip(runs, out, lines):
@@ -219,7 +283,7 @@ def run(ctx):
             ctx.obligations.append((t, False))
         broken.append(("translator", terr))
     else:
-        ok, info = prove(ctx, "MatidProps.C01", THEOREMS, extra_imports=("MatidProps.Proto",), gen_targets=("MatidProps.Proto",))
+        ok, info = prove(ctx, "MatidProps.C01", THEOREMS, extra_imports=("MatidProps.Proto", "MatidProps.SbcEntryProps", "MatidProps.AdaptiveProps"), gen_targets=("MatidProps.Proto", "MatidProps.SbcEntryProps", "MatidProps.AdaptiveProps"))
         if not ok:
             broken.append(("proof", info))
     mism = []
@@ -228,6 +292,9 @@ def run(ctx):
         mism = direct_drive(ctx, ctx.n(900, 30000))
         m2, bad = recorded_runs(ctx, ctx.n(120, 3000))
         mism += m2
+        if (mism or broken) and not bad:
+            m3, bad = recorded_runs(ctx, ctx.n(72, 288), directed=True)
+            mism += m3
     except common.DriverError as e:
         broken.append(("driver", {"error": str(e)[-1000:]}))
     if mism:
@@ -240,7 +307,7 @@ def run(ctx):
         seen.add(key)
         ctx.finding("sbc:" + key, "%s: %s" % (b["case"]["kind"], b["complaints"][0]), {"kind": "failing-input", "case": b["case"], "complaints": b["complaints"],
                     "how": "SBC().get_clusters(atoms, seed=seed, **params)"})
-    if broken and not ctx.findings:
+    if broken and not ctx.unknown_findings():
         ctx.finding("unproved", "proof/correspondence broken, no failing input found", {"kind": "broken-obligation", "broken": broken}, found_input=False)
     ctx.coverage["broken"] = [{"what": k, "info": i} for k, i in broken]
     ctx.coverage["correspondence_mismatches"] = len(mism)
